@@ -65,6 +65,10 @@ def merge_args(extra, specargs):
         if a == "--rlimit" and "--rlimit" in extra:
             skip = True
             continue
+        if a == "--verify-only-module" and "--verify-function" in extra:
+            # a probe names its own module; Verus accepts only one --verify-only-module with --verify-function
+            skip = True
+            continue
         out.append(a)
     return out
 
